@@ -225,7 +225,6 @@ func (g *satGet) serverWrite(p []byte) (int, error) {
 		return 0, errors.New("sat: write on a connection the client has left")
 	}
 	g.part = append(g.part, p...)
-	var done [][]byte
 	for {
 		i := bytes.Index(g.part, []byte("\n\n"))
 		if i < 0 {
@@ -233,14 +232,11 @@ func (g *satGet) serverWrite(p []byte) (int, error) {
 		}
 		blk := append([]byte(nil), g.part[:i+2]...)
 		g.part = g.part[i+2:]
-		done = append(done, blk)
+		g.n.wrote(blk) // logged before the client can see (and react to) the block
 		g.blocks = append(g.blocks, blk)
 	}
 	g.kick()
 	g.mu.Unlock()
-	for _, blk := range done {
-		g.n.wrote(blk)
-	}
 	return len(p), nil
 }
 
@@ -450,12 +446,12 @@ func (n *satNet) RoundTrip(req *http.Request) (*http.Response, error) {
 					r.log.emit("panic", "msg", fmt.Sprint(p), "where", "GET "+n.name)
 				}
 				g.rw.WriteHeader(http.StatusOK)
+				r.log.emit("get.exit", "s", n.name) // logged before the client can see the end of the response
 				g.mu.Lock()
 				g.srvEnded = true
 				g.swr = false
 				g.kick()
 				g.mu.Unlock()
-				r.log.emit("get.exit", "s", n.name)
 			}()
 			r.handler.ServeHTTP(g.rw, sreq)
 		}()
@@ -557,15 +553,15 @@ type satRun struct {
 	server  *mcp.Server
 	handler *mcp.SSEHandler
 
-	mu    sync.Mutex
-	sess  map[string]*satSess
-	byID  map[string]string
-	calls map[string]*satCall
-	hs    map[string]*satHandler // key: side + "." + tag
-	gates map[string]chan struct{}
-	open  map[string]bool
-	np    int
-	nstep int
+	mu             sync.Mutex
+	sess           map[string]*satSess
+	byID           map[string]string
+	calls          map[string]*satCall
+	hs             map[string]*satHandler // key: side + "." + tag
+	gates          map[string]chan struct{}
+	open           map[string]bool
+	np             int
+	nstep          int
 	closeB, closeE int
 }
 
